@@ -175,6 +175,9 @@ func atomAlphabet(t *Term) string {
 	case "NetStr":
 		return "0123456789abcdef:./"
 	case "Dec":
+		if a := t.args[0]; a.op == OZext || (a.op == OConst && a.sval() >= 0) {
+			return "0123456789"
+		}
 		return "-0123456789"
 	}
 	return ""
@@ -332,6 +335,12 @@ func (in *Interp) segsEq(sa, sb []seg) (*Term, bool) {
 				// followed by a literal starting with that separator
 				if len(rest) == 0 || rest[0].atom != nil || rest[0].lit[0] != lit[k] {
 					if len(rest) == 0 {
+						return tFalse, true
+					}
+					if rest[0].atom == nil && strings.IndexByte(alpha, rest[0].lit[0]) < 0 {
+						// the atom's text is a prefix lit[:m], m <= k, followed by rest's first character c,
+						// which is outside the alphabet: lit[m] = c is impossible for m < k (inside the
+						// alphabet) and for m = k (lit[k] != c)
 						return tFalse, true
 					}
 					return nil, false
@@ -828,4 +837,87 @@ func (in *Interp) symTrimSpace(s *SymStr) Value {
 		in.abort("unsupported: TrimSpace on a symbolic piece that may contain spaces")
 	}
 	return segsToValue(in, segs)
+}
+
+// symSplit implements strings.Split for a one-byte literal separator that cannot occur inside the
+// symbolic pieces.
+func (in *Interp) symSplit(s *SymStr, sep string) Value {
+	if s.opaque || len(sep) != 1 {
+		in.abort("unsupported: strings.Split on symbolic text")
+	}
+	var segs []seg
+	flattenStr(s.t, &segs)
+	var out Slice
+	var cur []seg
+	for _, sg := range segs {
+		if sg.atom != nil {
+			if atomMayContain(sg.atom, sep[0]) {
+				in.abort("unsupported: strings.Split: separator may occur inside a symbolic piece")
+			}
+			cur = append(cur, sg)
+			continue
+		}
+		parts := strings.Split(sg.lit, sep)
+		for i, p := range parts {
+			if i > 0 {
+				out = append(out, segsToValue(in, cur))
+				cur = nil
+			}
+			if p != "" {
+				cur = append(cur, seg{lit: p})
+			}
+		}
+	}
+	out = append(out, segsToValue(in, cur))
+	return out
+}
+
+// symFields implements strings.Fields when no symbolic piece can contain white space (symbolic
+// pieces are never empty).
+func (in *Interp) symFields(s *SymStr) Value {
+	if s.opaque {
+		in.abort("unsupported: strings.Fields on opaque text")
+	}
+	var segs []seg
+	flattenStr(s.t, &segs)
+	out := Slice{}
+	var cur []seg
+	flush := func() {
+		if len(cur) > 0 {
+			out = append(out, segsToValue(in, cur))
+			cur = nil
+		}
+	}
+	for _, sg := range segs {
+		if sg.atom != nil {
+			for _, c := range []byte(" \t\n\r\v\f") {
+				if atomMayContain(sg.atom, c) {
+					in.abort("unsupported: strings.Fields: white space may occur inside a symbolic piece")
+				}
+			}
+			cur = append(cur, sg)
+			continue
+		}
+		start := -1
+		for i := 0; i < len(sg.lit); i++ {
+			c := sg.lit[i]
+			if c >= 0x80 {
+				in.abort("unsupported: strings.Fields on non-ASCII text")
+			}
+			if c == ' ' || c == '\t' || c == '\n' || c == '\r' || c == '\v' || c == '\f' {
+				if start >= 0 {
+					cur = append(cur, seg{lit: sg.lit[start:i]})
+					start = -1
+				}
+				flush()
+			} else if start < 0 {
+				start = i
+			}
+		}
+		if start >= 0 {
+			cur = append(cur, seg{lit: sg.lit[start:]})
+		}
+	}
+	flush()
+	return out
 }
